@@ -254,17 +254,17 @@ class Env:
         self.log.append([kind, site, payload])
 
     def _fresh(self):
+        if self.box is not None:
+            # C12: values from a small box, decided by the tape (uniqueness relaxed)
+            lo, hi = self.box
+            return lo + self._draw() % (hi - lo + 1)
         v = self.nv
         self.nv += 1
         return v
 
     # -- the actor-facing API --------------------------------------------
     def val(self, site):
-        if self.box is not None:
-            lo, hi = self.box
-            v = lo + self._draw() % (hi - lo + 1)
-        else:
-            v = self._fresh()
+        v = self._fresh()
         self._step("val", site, v)
         return v
 
